@@ -773,8 +773,27 @@ func (g *cliGen) download() {
 	if g.r.chance(33) {
 		dieAt = 1 + g.r.intn(4)
 	}
+	// one run in three: the server says GOAWAY (graceful: NO_ERROR, last-stream-id covering the request in flight)
+	// early in the download and then delivers the rest, as RFC 7540 6.8 lets it: the client still has to hand
+	// connection credit back, or the response it was promised starves (seeded change C14d-m2)
+	goAwayAt := -1
+	if g.r.chance(33) {
+		goAwayAt = 1 + g.r.intn(6)
+	}
 	sent := 0
 	for len(s.units) > 1 && !g.run.hung {
+		if sent == goAwayAt {
+			f := newFrame('A', 0, 0)
+			f.dep = int64(s.sid)
+			if g.r.chance(30) {
+				f.dep = 1<<31 - 1
+			}
+			f.code = 0
+			g.goAways++
+			g.lastGoAway = f.dep
+			g.goneAway = true
+			g.frame(f, blob{})
+		}
 		if sent == dieAt {
 			sid := s.sid
 			if g.r.chance(50) {
@@ -931,7 +950,7 @@ func genClient(c *genctx) {
 	kinds := []string{"good", "goaway", "badmsg", "badframe", "flow", "races", "good", "flow"}
 	for i := 0; i < c.n; i++ {
 		kind := kinds[i%len(kinds)]
-		if i%24 == 23 {
+		if i%16 == 15 {
 			kind = "download"
 		}
 		line, res := c.genClientScenario(kind)
